@@ -8,6 +8,7 @@ package c12
 import (
 	"fmt"
 	"math/bits"
+	"sort"
 	"strings"
 
 	"github.com/NethermindEth/juno/consensus/starknet"
@@ -271,13 +272,14 @@ func (s *sim) header() string {
 		}
 		b.WriteByte('\n')
 	}
-	fmt.Fprintf(&b, "  invalid values: ")
+	var inv []string
 	for v, ok := range s.valid {
 		if !ok {
-			fmt.Fprintf(&b, "%s ", s.vname(v))
+			inv = append(inv, s.vname(v))
 		}
 	}
-	b.WriteByte('\n')
+	sort.Strings(inv)
+	fmt.Fprintf(&b, "  values the application judges invalid: %s\n", strings.Join(inv, " "))
 	return b.String()
 }
 
